@@ -41,6 +41,13 @@ def _call_of(stmt: ast.stmt) -> Tuple[Optional[ast.Call], bool]:
     return None, False
 
 
+def _simple_read(expr: ast.AST) -> bool:
+    """A name, an attribute chain over one, a constant (evaluating it has no effect and cannot be affected by a call)."""
+    while isinstance(expr, ast.Attribute):
+        expr = expr.value
+    return isinstance(expr, (ast.Name, ast.Constant))
+
+
 def _splicable(helper: FuncInfo) -> bool:
     node = helper.node
     args = node.args  # type: ignore[attr-defined]
@@ -197,7 +204,7 @@ class _Rename(ast.NodeTransformer):
         return node
 
 
-def inlined(ctx, fn: FuncInfo, depth: int = 2, keep: Tuple[str, ...] = ()) -> FuncInfo:
+def inlined(ctx, fn: FuncInfo, depth: int = 3, keep: Tuple[str, ...] = ()) -> FuncInfo:
     """A view of *fn* with small same-module helpers spliced in (see module docstring)."""
     counter = [0]
     new_node = clone(fn.node)
@@ -325,6 +332,23 @@ def inlined(ctx, fn: FuncInfo, depth: int = 2, keep: Tuple[str, ...] = ()) -> Fu
             for h in getattr(stmt, "handlers", []) or []:
                 h.body = rewrite(h.body)
             call, awaited = _call_of(stmt)
+            # f(a, helper(b)): a helper call in argument position is lifted in front of the statement when everything
+            # evaluated before it is a plain read (names, attribute chains, constants) - it is spliced in the next pass
+            if call is not None and resolve(call, awaited) is None and _simple_read(call.func):
+                arg_slots = [("args", i, a) for i, a in enumerate(call.args)] + [("keywords", i, k.value) for i, k in enumerate(call.keywords)]
+                for pos, (kind_, i, a) in enumerate(arg_slots):
+                    inner = a
+                    if isinstance(inner, ast.Call) and resolve(inner, False) is not None and all(_simple_read(x) for _, _, x in arg_slots[:pos]):
+                        counter[0] += 1
+                        tmp = f"_h{counter[0]}"
+                        out.append(ast.fix_missing_locations(ast.Assign([ast.Name(tmp, ast.Store())], inner, lineno=stmt.lineno, col_offset=0)))
+                        if kind_ == "args":
+                            call.args[i] = ast.Name(tmp, ast.Load())
+                        else:
+                            call.keywords[i].value = ast.Name(tmp, ast.Load())
+                        ast.fix_missing_locations(stmt)
+                        changed[0] = True
+                        break
             helper = resolve(call, awaited) if call is not None else None
             repl = splice(stmt, call, helper) if helper is not None and call is not None else None
             if repl is None:
